@@ -21,7 +21,7 @@
      unspec  set of reasons why the documentation does not determine the outcome (such scenarios are
              never run: nothing is claimed about them)
      hazard  set of reasons why the planned tasks interfere with each other or with existing entries
-     known   set of narrow constructs with a confirmed defect on the pinned tree (known/C19.txt)
+     known   set of narrow constructs with a confirmed, unfixed defect ("bakrace", see known/C20.txt)
      refuse  tasks that cannot be carried out without harming another file (<source>.bak exists): they must fail cleanly
 
    Nothing in this module is derived from cmd/minify/*.go except where the property text itself fixes
@@ -195,13 +195,19 @@ Plan(sc) ==
         \cup (IF \E k \in fileDst : dstSt[k].k = "f" /\ ~InPlace(k) /\
                     (Lookup(T, JoinComps(dstReal[k])).k = "h" \/ \E i \in DOMAIN T : T[i].k = "h" /\ Comps(T[i].t) = dstReal[k])
               THEN {"destination exists and has a second name"} ELSE {})
-      known ==
-           (IF \E i \in 1..nIn : inSt[i].k = "d" /\ ~TrailingSlash(I.inputs[i]) /\ Inside(I.inputs[i]) /\ inC[i] # <<>> THEN {"slashdot"} ELSE {})
-        \cup
-           (IF \E i \in 1..Len(items) : items[i].explicit /\ items[i].k = "f" /\ I.s /\ KindOf(items[i]) = "copy" THEN {"syncfile"} ELSE {})
-        \cup
-           (IF \E k \in fileDst : InPlace(k) /\ ~SpelledSame(k) THEN {"alias"} ELSE {})
-        \cup (IF \E k \in fileDst : Refused(k) THEN {"bak"} ELSE {})
+      \* narrow constructs with a confirmed, not yet fixed defect (left to pinned witnesses).  Empty since the fixes
+      \* bdbfbd6 (stale <name>.bak: refuse), 282e2ab (backup cleaned up for aliased outputs), ec8cfb8 (sync copies a
+      \* named file of unknown type), f8787e2 (`src/.` = `src/`): these constructs are generated again.
+      \* Still open (known/C20.txt): with parallel workers the test "does <src>.bak exist" races with another task of the
+      \* same run that is moving that very file (its own backup step) - excluded while the name <src>.bak of a file
+      \* minified onto itself is a source or destination of another task.
+      known == (IF \E k \in fileDst : InPlace(k) /\ tasks[k].mode = "min" /\
+                     LET b == RealOf(T, Comps(tasks[k].srcs[Min(OntoSrc(k))] \o BakSuffix), FALSE).cs IN
+                     \E u \in 1..nT : u # k /\ (dstReal[u] = b \/ \E j \in 1..Len(tasks[u].srcs) :
+                            tasks[u].srcs[j] # <<>> /\ RealOf(T, Comps(tasks[u].srcs[j]), FALSE).cs = b)
+               THEN {"bakrace"} ELSE {})
+        \* Still open (known/C19.txt): a file that sync mode copies onto itself through another spelling of its name
+        \cup (IF \E k \in fileDst : InPlace(k) /\ tasks[k].mode = "copy" /\ ~SpelledSame(k) THEN {"syncalias"} ELSE {})
   IN [tasks |-> tasks, unspec |-> unspec, hazard |-> hazard, known |-> known,
       inplace |-> {k \in fileDst : InPlace(k)}, refuse |-> {k \in fileDst : Refused(k)}, dstReal |-> [k \in 1..nT |-> JoinComps(dstReal[k])]]
 =============================================================================
